@@ -38,6 +38,13 @@ void *yyrealloc(void *p, yy_size_t n) { return sim_realloc(p, n); }
 void yyfree(void *p) { sim_free(p); }
 #endif
 
+#if SIM_FLAVOR == SIM_C99
+void yypanic(const char *msg, yyscan_t yyscanner) { (void) yyscanner; sim_fatal(msg); }
+#if SIM_USER_INPUT
+int yyread(char *buf, size_t max_size, yyscan_t yyscanner) { return sim_read_user(yyget_in(yyscanner), buf, max_size); }
+#endif
+#endif
+
 /* ops that may be executed at top level, inside actions and inside yywrap */
 static void sim_common_op(const sim_xop *x SC_DECL__)
 {
@@ -184,13 +191,25 @@ static void sim_exec_top(sim_inst *I, const sim_xop *x)
 		int r;
 		errno = 0;
 		if (x->a & 1)
+#if SIM_FLAVOR == SIM_C99
+			r = yylex_init_extra(0, &s);
+#else
 			r = yylex_init_extra((YY_EXTRA_TYPE) 0, &s);
+#endif
 		else
 			r = yylex_init(&s);
 		sim_res_int("init", r);
 		if (r == 0) {
 			I->scanner = (void *) s;
 			I->inited = 1;
+#if SIM_FLAVOR == SIM_C99
+			{
+				static FILE *devnull;
+				if (!devnull)
+					devnull = fopen("/dev/null", "w");
+				yyset_out(devnull, s);
+			}
+#endif
 		} else
 			sim_res_int("errno", errno);
 		return;
